@@ -259,7 +259,7 @@ PLAN = {
     ),
     "C20": dict(
         stages=[dict(engine="grid", shards=dict(quick=4, thorough=16))],
-        rule="configuration grid: num_counters 0..70,100,1000 x max_cost {0,1,2,10,-1,-100,2^62} x buffer_size {0,1,2,8} x buffer_items {0,1,2,64} x metrics x ignore_internal_cost x cleanup {1 ns, 1 us, 1 ms, 1 s, default}; three orders of builder calls; "
+        rule="configuration grid: num_counters 0..70,100,1000 x max_cost {0,1,2,10,-1,-100,2^62} x buffer_size {0,1,2,8} x buffer_items {0,1,2,64} x metrics x ignore_internal_cost x cleanup {1 ns, 1 us, 1 ms, 1 s, default, u64::MAX s, Duration::MAX}; three orders of builder calls; "
              "quick: every num_counters with rotating partners plus every triple of the small parameters; thorough: full product; flavours sync / tokio multi-thread / thread-per-task (thorough: all five)",
         clauses=["zero num_counters / max_cost / buffer size => the named error", "otherwise: workload of inserts (boundary costs), look-ups across aging resets, removes, TTL expiry, evictions, clear",
                  "no panic on any thread (process-wide panic hook)", "both workers alive until close", "no hang and no livelock (a thread burning CPU inside the cache without logical progress)", "wait() returns Ok", "a final insert is still handled", "close ends both workers"],
